@@ -231,7 +231,7 @@ func init() {
 		if value != nil {
 			*(*big.Int)(reflect2.PtrOf(p)) = *value
 		} else {
-			*(*big.Int)(reflect2.PtrOf(p)) = *bigIntZero
+			*(*big.Int)(reflect2.PtrOf(p)) = *big.NewInt(0) // a fresh zero: copies of a shared value share its digits
 		}
 	})
 	RegisterConverter(stringType, bigIntType, func(dec *Decoder, o interface{}, p interface{}) {
@@ -243,7 +243,7 @@ func init() {
 		if value != nil {
 			*(*big.Float)(reflect2.PtrOf(p)) = *value
 		} else {
-			*(*big.Float)(reflect2.PtrOf(p)) = *bigFloatZero
+			*(*big.Float)(reflect2.PtrOf(p)) = *big.NewFloat(0) // a fresh zero: copies of a shared value share its digits
 		}
 	})
 	RegisterConverter(stringType, bigFloatType, func(dec *Decoder, o interface{}, p interface{}) {
@@ -255,7 +255,7 @@ func init() {
 		if value != nil {
 			*(*big.Rat)(reflect2.PtrOf(p)) = *value
 		} else {
-			*(*big.Rat)(reflect2.PtrOf(p)) = *bigRatZero
+			*(*big.Rat)(reflect2.PtrOf(p)) = *big.NewRat(0, 1) // a fresh zero: copies of a shared value share its digits
 		}
 	})
 	RegisterConverter(stringType, bigRatType, func(dec *Decoder, o interface{}, p interface{}) {
